@@ -222,6 +222,18 @@ fn finish(sink: &mut Sink, p: &Program, joined: Vec<(Handle, Vec<String>, Option
                         sink.oracle_fail("C02", &format!("thread {t}: its last poll answered Pending, its waker was never woken, yet a further poll answers {again} (lost wakeup)"));
                     }
                 }
+                // C04: a value is handed out together with the version it belongs to: when every written value is different,
+                // no subscriber receives the same value twice
+                let mut got: Vec<String> = results.iter().filter(|r| r.starts_with("Ready")).cloned().collect();
+                let fin = poll_once(&mut s, &w);
+                if fin.starts_with("Ready") { got.push(fin); }
+                let mut vals: Vec<u64> = p.ops.iter().filter_map(|o| match o { COp::Set(v) | COp::Sne(v) => Some(*v), _ => None }).collect();
+                vals.push(p.init);
+                let n0 = vals.len(); vals.sort(); vals.dedup();
+                if vals.len() == n0 {
+                    let mut g2 = got.clone(); g2.sort(); g2.dedup();
+                    if g2.len() != got.len() { sink.oracle_fail("C04", &format!("thread {t}: the subscriber received {got:?}: one update delivered twice (value and observed version do not belong together)")); }
+                }
                 // C04: after the writers finished a subscriber ends on the final value
                 let last = s.get();
                 if last != value { sink.oracle_fail("C04", &format!("thread {t}: subscriber reads {last}, the final value is {value}")); }
